@@ -25,7 +25,7 @@ import (
 func init() {
 	Registry["C08"] = &Check{
 		Scenarios: c08Scenarios,
-		Rule: "1101 connections on one ServeMux with the handlers of 1100 blocked for ever, and with 1100 closed by their peers before the last one is made (one schedule each). The peer hangs up right behind a burst of three requests whose first handler requested CloseNotify (one segment, one segment per request, the first request alone and the other two in one segment). Run-time registrations at every instant of the dispatch of three messages (by name, by index, catch-all; the RWMutex shim gives a waiting writer precedence over new readers, as sync.RWMutex does). A handler of connection A blocked inside Parser.Load of a private dictionary (package dict is part of the instrumented build) while connection B receives. Two connections send requests no handler matches while nobody reads ErrorReports, then a handled one each. Two relay scenarios with a multistream (SCTP) connection B, forwarded to with Message.WriteTo and with the raw Conn.Write adaptor. Two relay scenarios: a handler of connection A blocks inside a Write to connection B (whose peer has stopped reading) while B keeps receiving - under a Server with and without ReadTimeout / WriteTimeout. In the blocked-handler mode (two of the six arrival patterns) an application goroutine polls ServeMux.ErrorReports() at every instant. Server.Serve on a scripted listener with two connections (both accepted, or one accepted and one attached with diam.NewConn); three requests per connection (re-auth, device-watchdog, capabilities-exchange, in that order) delivered as {one segment, one segment per message, split at the header/body border, first message in 10-byte pieces, first message one byte at a time}; instrumented handlers record enter/exit around a scheduling point and answer; variants: plain, and the first handler on connection A blocked for ever; in one arrival pattern the first handler of connection B requests CloseNotify (so the rest of B's messages pass through the reader switch); one arrival pattern runs on a zero Server{} (DefaultServeMux, default dictionary); every schedule up to preemption bound 3 (thorough 6). The environment is eager (all fragments queued before the server starts; a Read never crosses a fragment boundary), because the arrival instant of a fragment is unobservable to a per-connection single-threaded reader; what is explored is every interleaving of the accept loop, the per-connection readers and the handlers.",
+		Rule: "Registrations with a nil handler (refused with a panic the application recovers) before traffic and a valid one after; another ServeMux set up by a goroutine while a handler of this one is blocked: dispatch goes on (preemption bound 2). 1101 connections on one ServeMux with the handlers of 1100 blocked for ever, and with 1100 closed by their peers before the last one is made (one schedule each). The peer hangs up right behind a burst of three requests whose first handler requested CloseNotify (one segment, one segment per request, the first request alone and the other two in one segment). Run-time registrations at every instant of the dispatch of three messages (by name, by index, catch-all; the RWMutex shim gives a waiting writer precedence over new readers, as sync.RWMutex does). A handler of connection A blocked inside Parser.Load of a private dictionary (package dict is part of the instrumented build) while connection B receives. Two connections send requests no handler matches while nobody reads ErrorReports, then a handled one each. Two relay scenarios with a multistream (SCTP) connection B, forwarded to with Message.WriteTo and with the raw Conn.Write adaptor. Two relay scenarios: a handler of connection A blocks inside a Write to connection B (whose peer has stopped reading) while B keeps receiving - under a Server with and without ReadTimeout / WriteTimeout. In the blocked-handler mode (two of the six arrival patterns) an application goroutine polls ServeMux.ErrorReports() at every instant. Server.Serve on a scripted listener with two connections (both accepted, or one accepted and one attached with diam.NewConn); three requests per connection (re-auth, device-watchdog, capabilities-exchange, in that order) delivered as {one segment, one segment per message, split at the header/body border, first message in 10-byte pieces, first message one byte at a time}; instrumented handlers record enter/exit around a scheduling point and answer; variants: plain, and the first handler on connection A blocked for ever; in one arrival pattern the first handler of connection B requests CloseNotify (so the rest of B's messages pass through the reader switch); one arrival pattern runs on a zero Server{} (DefaultServeMux, default dictionary); every schedule up to preemption bound 3 (thorough 6). The environment is eager (all fragments queued before the server starts; a Read never crosses a fragment boundary), because the arrival instant of a fragment is unobservable to a per-connection single-threaded reader; what is explored is every interleaving of the accept loop, the per-connection readers and the handlers.",
 		Assume: []string{"data-race freedom between visible operations (audited separately with -race)"},
 		QuickBudget: 120, ThoroughBudget: 2400,
 	}
@@ -443,6 +443,7 @@ func c08Scenarios(tier string) []*Scenario {
 	out = append(out, c08RelayBlocked(false, bound), c08RelayBlocked(true, bound))
 	out = append(out, c08RelayBlockedMulti(false, bound), c08RelayBlockedMulti(true, bound))
 	out = append(out, c08UnmatchedNoReader(bound))
+	out = append(out, c08MuxSideEffects("nil-registration", 2), c08MuxSideEffects("unrelated-mux", 2))
 	out = append(out, &Scenario{Name: "many-connections", Seq: c08ManyConnections})
 	out = append(out, c08HandlerLoadsDictionary(bound))
 	out = append(out, c08RegisterWhileDispatching(bound))
@@ -1466,6 +1467,103 @@ func c08ManyConnections(r *SeqResult) {
 	if r.Sample == "" {
 		r.Sample = "1101 connections, handlers of 1100 blocked / 1100 closed by their peers: the last one is served"
 	}
+}
+
+// c08MuxSideEffects: things an application does to a ServeMux (or to another one) that must not
+// hold up dispatch. "nil-registration": a registration with a nil handler is refused with a panic,
+// which the application recovers; the mux goes on dispatching and registering. "unrelated-mux":
+// while the handler of connection A (mux X) is blocked, a goroutine sets up a brand-new mux Y;
+// a request arriving on connection B (mux X) afterwards is still dispatched.
+var c08se struct {
+	handled    map[uint32]int
+	registered bool
+	refused    int
+}
+
+func c08MuxSideEffects(mode string, bound int) *Scenario {
+	body := func() {
+		st := &c08se
+		st.handled, st.registered, st.refused = map[uint32]int{}, false, 0
+		never := vs.NewChan[struct{}](0)
+		mux := diam.NewServeMux()
+		h := func(c diam.Conn, m *diam.Message) {
+			st.handled[m.Header.HopByHopID]++
+			vs.Touch(never, "handler-entered")
+			if mode == "unrelated-mux" && m.Header.HopByHopID == 1 {
+				never.Recv()
+			}
+			m.Answer(2001).WriteTo(c)
+		}
+		mux.HandleFunc("ALL", h)
+		a, b := vnet.NewConn("A"), vnet.NewConn("B")
+		a.Pieces, b.Pieces = 1, 1
+		req := func(i uint32) []byte {
+			return refcodec.EncodeMessage(refcodec.Header{Version: 1, Flags: 0x80, Code: 280, HbH: i, E2E: 1}, []refcodec.Node{ident(264, "c"), ident(296, "r")})
+		}
+		for _, c := range []*vnet.Conn{a, b} {
+			if _, err := diam.NewConn(c, "peer", mux, dict.Default); err != nil {
+				panic(err)
+			}
+		}
+		vs.GoNamed("application", true, func() {
+			if mode == "nil-registration" {
+				for _, reg := range []func(){
+					func() { mux.Handle("DWR", nil) },
+					func() { mux.HandleIdx(diam.CommandIndex{AppID: 0, Code: 280, Request: true}, nil) },
+					func() { mux.Handle("ALL", nil) },
+				} {
+					func() {
+						defer func() {
+							if recover() != nil {
+								st.refused++
+							}
+						}()
+						reg()
+					}()
+				}
+				a.Deliver(req(1))
+				vs.TimeSleep(time.Millisecond)
+				mux.HandleFunc("DWR", h) // a later, valid registration
+				st.registered = true
+				b.Deliver(req(2))
+				return
+			}
+			a.Deliver(req(1))
+			vs.BlockObj("wait-A-handler", never, func() bool { return st.handled[1] > 0 })
+			vs.GoNamed("application-sets-up-another-mux", true, func() {
+				y := diam.NewServeMux()
+				y.HandleFunc("ALL", func(diam.Conn, *diam.Message) {})
+				y.HandleIdx(diam.CommandIndex{AppID: 4, Code: 272, Request: true}, diam.HandlerFunc(func(diam.Conn, *diam.Message) {}))
+				st.registered = true
+			})
+			vs.TimeSleep(time.Millisecond) // ends when nothing else can move
+			b.Deliver(req(2))
+		})
+	}
+	check := func(s *vs.Sched) string {
+		st := &c08se
+		var v []string
+		if mode == "nil-registration" {
+			if st.refused != 3 {
+				v = append(v, fmt.Sprintf("%d of 3 registrations with a nil handler were refused", st.refused))
+			}
+			if st.handled[1] != 1 {
+				v = append(v, "the request on connection A, arriving after the refused registrations, was not dispatched")
+			}
+		}
+		if !st.registered {
+			v = append(v, "a registration (valid, on this mux or on an unrelated new one) never returned")
+		}
+		if st.handled[2] != 1 {
+			v = append(v, "the request on connection B was received but not dispatched")
+		}
+		for _, p := range s.Panics() {
+			v = append(v, "panic: "+p)
+		}
+		return strings.Join(v, " | ")
+	}
+	return &Scenario{Name: "dispatch/mux-side-effects/" + mode, Body: body, Check: check, Bound: bound, Horizon: 5 * time.Second,
+		Outcome: func(s *vs.Sched) string { return fmt.Sprint(c08se.handled, c08se.registered) }}
 }
 
 func c08UnmatchedNoReader(bound int) *Scenario {
